@@ -158,7 +158,7 @@ class compile_order_by:
     modifies = ['fields:c_expr', 'fields:name', 'fields:is_aggregate']
     native = False
     assumes = ['ATTRS_PRESENT', 'compiled nodes compare by ==; list.index finds the first equal element (merge soundness is C03 EvalNode.__eq__)']
-    note = 'what each key denotes (position / name / expression) and the range of the indexes are NOT carried by this contract: the invariants with order_key() / the index range did not discharge within the budget (nested pair handles); that the appended targets are hidden (name None) is proved as loop invariant 5 but its restatement over the returned slice flipped between proved and unknown with the budget and was removed; bounded evidence in h03, h05, h07'
+    note = 'what each key denotes (position / name / expression) is NOT carried by this contract: the invariant with order_key() did not discharge within the budget (nested pair handles under a dict lookup); bounded evidence in h03, h05, h07'
     raises = {'CompilationError': None}
     loops = {0: dict(fields=['c_expr', 'name', 'is_aggregate'],
                      inv=lambda order_by, c_targets, new_targets, c_target_expressions, order_spec, _i:
